@@ -540,6 +540,16 @@ def main(run):
     byid = {c["id"]: (c, o) for c, o in zip(cases, obs)}
     defect_cases = [(c, o) for c, o in zip(cases, obs) if c.get("model_only")]
     main_cases = [(c, o) for c, o in zip(cases, obs) if not c.get("model_only")]
+    skipped_slash = 0
+    if outcome.get("K_rest_path_percent") != "buggy":
+        # someone escapes path arguments now (the open finding no longer reproduces): url.JoinPath then no longer
+        # cleans the slashes INSIDE an argument, which the instance join_decoded assumes; keep those cases out
+        def slash_arg(c):
+            m = c["method"]
+            hp = {rg.resolve(m, t[1]) for t in m["toks"] if t[0] == "hole"}
+            return any(v[0] == "str" and "/" in v[1] for k, v in c["args"].items() if k in hp)
+        skipped_slash = sum(1 for c, _ in main_cases if slash_arg(c))
+        main_cases = [(c, o) for c, o in main_cases if not slash_arg(c)]
     cases = [c for c, _ in main_cases]
     obs = [o for _, o in main_cases]
     mism = eval_cases(run, "c06", cases, obs)
@@ -602,6 +612,7 @@ def main(run):
         "programs": len(good),
         "l2_cases": len(cases), "l1_calls": n_l1, "l0_calls": n_std,
         "known_defect_class_cases": {"generated": len(defect_cases), "compared_with_faithful_model": len(live)},
+        "cases_skipped_because_path_arguments_are_escaped_now": skipped_slash,
         "features": feats,
         "findings_measured": outcome,
         "samples": [case_summary(*byid[i]) for i in ([0, len(cases) // 2, len(cases) - 1] if cases else [])],
